@@ -341,6 +341,27 @@ func (sc *serverConn) newWriterAndRequest(st *stream, f *SynStreamFrame) (
 		state.SpdyErrBadRequest.Inc(1)
 		return nil, nil, StreamError{st.id, ProtocolError}
 	}
+	// Method, host and every header field end up verbatim in the HTTP/1.1
+	// request written to the backend: anything that is not a legal method,
+	// field name or field value there would change what the backend reads
+	// (extra header lines, a second request).
+	if !validToken(method) || !validHost(host) {
+		state.SpdyErrBadRequest.Inc(1)
+		return nil, nil, StreamError{st.id, ProtocolError}
+	}
+	for name, values := range header {
+		if !strings.HasPrefix(name, ":") && !validToken(name) {
+			state.SpdyErrBadRequest.Inc(1)
+			return nil, nil, StreamError{st.id, ProtocolError}
+		}
+		for _, value := range values {
+			if !validFieldValue(value) {
+				state.SpdyErrBadRequest.Inc(1)
+				return nil, nil, StreamError{st.id, ProtocolError}
+			}
+		}
+	}
+
 	bodyOpen := st.state == stateOpen
 	if method == "HEAD" && bodyOpen {
 		// HEAD requests can't have bodies
